@@ -118,6 +118,10 @@ class RefCaches:
             self._fut[h] = ("response",)
         return v
 
+    def _on_wait(self, ident: int, t: float, res: str) -> list:
+        """wait_for() only observes registration: it changes nothing about how a request ends."""
+        return []
+
     def _on_query(self, ident: int, t: float, has: bool, got, ctor_refused: bool) -> list:  # noqa: ANN001
         """A look-up made from inside a callback: it must see the table as the statement implies it at that moment."""
         h = self.holder(ident)
